@@ -220,16 +220,19 @@ impl Oracle for C09Oracle {
         // that runs longer keeps others out of an address that is free, one that runs shorter
         // gives away an address that is held.
         if let StepObs::Msg(m) = obs {
+            let mut told_now: Option<(Vec<u8>, Ipv4Addr)> = None;
             if let (true, Ok(rep)) = (m.matched && is_alloc(m.msgtype), &m.result) {
                 if let Some(l) = rep.lease_time() {
                     self.told.insert((m.identity.clone(), rep.yiaddr), m.vnow + l as i64);
+                    told_now = Some((m.identity.clone(), rep.yiaddr));
                 }
             }
             for r in &m.after {
                 if let Some(t) = self.told.get(&(r.client.clone(), r.ip)) {
                     let stored = r.expire as i64 + m.shift;
                     if (stored - *t).abs() > 2 {
-                        if m.before.iter().any(|b| b.ip == r.ip && b.client == r.client && b.expire == r.expire) {
+                        let just_told = told_now.as_ref().map(|(c, ip)| c == &r.client && *ip == r.ip).unwrap_or(false);
+                        if !just_told && m.before.iter().any(|b| b.ip == r.ip && b.client == r.client && b.expire == r.expire) {
                             // not this step's doing (reported at the step that did it)
                             continue;
                         }
@@ -1450,6 +1453,7 @@ pub fn run_hist_func(ctx: &Ctx, id: &str) {
 pub fn replay(id: &str, sub: &str, case: &serde_json::Value) -> Option<Result<Outcome, String>> {
     match (id, sub) {
         ("C18", "large-store") => Some(replay_prop(&C18BigStore, case)),
+        ("C18", "file-held-by-another-connection") => Some(replay_prop(&C18Locked, case)),
         ("C20", "gauges-in-real-time") => Some(replay_prop(&C20RealTime, case)),
         ("C01", "ledger") | ("C09", "keeps-address") | ("C10", "lease-time") | ("C13", "frame") => {
             Some(replay_prop(&hist_prop(id), case))
@@ -1581,6 +1585,138 @@ impl Prop for C18BigStore {
     }
 }
 
+/// C18 with the lease file held by somebody else (a backup, a shell, a second writer): another
+/// connection holds a write reservation (`BEGIN IMMEDIATE`) or sits in an open read transaction
+/// while the pool allocates.  Whatever the pool then does - wait, fail, succeed - a lease it
+/// *reported as allocated* (so that a reply goes out) is in the file once the holder has gone
+/// and the file is opened again.
+#[derive(Clone, Debug, Serialize, Deserialize, PartialEq)]
+pub struct LockedCase {
+    /// 0: second writer (RESERVED lock), 1: reader in an open transaction (SHARED lock)
+    pub holder: u8,
+    /// leases allocated before the file is held
+    pub before: u8,
+}
+
+pub struct C18Locked;
+
+impl Prop for C18Locked {
+    type Case = LockedCase;
+    fn sub(&self) -> &'static str {
+        "file-held-by-another-connection"
+    }
+    fn check(&self, c: &LockedCase) -> Outcome {
+        let mut out = Outcome::default();
+        out.nontrivial = true;
+        let path = scratch_path("c18lock");
+        let cleanup = |p: &std::path::Path| {
+            let _ = std::fs::remove_file(p);
+            let _ = std::fs::remove_file(format!("{}-journal", p.display()));
+        };
+        let mut pool = match erbium::dhcp::pool::Pool::verif_open(&path) {
+            Ok(p) => p,
+            Err(e) => {
+                out.fail("rig-error", e.to_string());
+                return out;
+            }
+        };
+        let addrs: erbium::dhcp::pool::PoolAddresses = (1..=20u8).map(|i| Ipv4Addr::new(10, 9, 2, i)).collect();
+        let d = std::time::Duration::from_secs(600);
+        let mut reported: Vec<(Vec<u8>, Ipv4Addr)> = vec![];
+        for i in 0..c.before {
+            match pool.allocate_address(&[0xdd, i], None, &addrs, d, d, &[53, 1, 3]) {
+                Ok(l) => reported.push((vec![0xdd, i], l.ip)),
+                Err(e) => {
+                    out.fail("rig-error", format!("allocate: {}", e));
+                    cleanup(&path);
+                    return out;
+                }
+            }
+        }
+        // somebody takes hold of the file
+        let holder = match rusqlite::Connection::open(&path) {
+            Ok(h) => h,
+            Err(e) => {
+                out.fail("rig-error", e.to_string());
+                cleanup(&path);
+                return out;
+            }
+        };
+        let held = if c.holder == 0 {
+            holder.execute_batch("BEGIN IMMEDIATE")
+        } else {
+            holder.execute_batch("BEGIN").and_then(|_| holder.query_row("SELECT COUNT(*) FROM leases", [], |r| r.get::<_, i64>(0)).map(|_| ()))
+        };
+        if let Err(e) = held {
+            out.fail("rig-error", format!("holder: {}", e));
+            cleanup(&path);
+            return out;
+        }
+        // a new client and a renewal while the file is held
+        let t0 = std::time::Instant::now();
+        let mut during = vec![];
+        let mut asks: Vec<Vec<u8>> = vec![vec![0xde, 0xad]];
+        if c.before > 0 {
+            asks.push(vec![0xdd, 0]);
+        }
+        for id in asks {
+            match pool.allocate_address(&id, None, &addrs, d, d, &[53, 1, 3]) {
+                Ok(l) => {
+                    out.class("allocation-reported-while-the-file-was-held");
+                    during.push((id, l.ip));
+                }
+                Err(_) => out.class("allocation-refused-while-the-file-was-held"),
+            }
+        }
+        let waited = t0.elapsed();
+        let _ = holder.execute_batch("ROLLBACK");
+        drop(holder);
+        drop(pool);
+        let rows = match erbium::dhcp::pool::Pool::verif_open(&path) {
+            Ok(mut p) => listing_of(&mut p).unwrap_or_default(),
+            Err(e) => {
+                out.fail("C18:database-does-not-open", e.to_string());
+                cleanup(&path);
+                return out;
+            }
+        };
+        for (id, ip) in reported.iter().chain(during.iter()) {
+            if !rows.iter().any(|r| &r.client == id && r.ip == *ip) {
+                out.fail(
+                    "C18:acknowledged-lease-lost:file-held-by-another-connection",
+                    format!(
+                        "client {:02x?} was reported {} ({}) but the reopened database has no such row; the pool spent {:.1} s on the allocations made while the file was held; rows: {:?}",
+                        id,
+                        ip,
+                        if during.iter().any(|(d, _)| d == id) { format!("while a {} held the file", if c.holder == 0 { "second writer" } else { "reader" }) } else { "before the file was held".to_string() },
+                        waited.as_secs_f64(),
+                        rows.iter().map(|r| (r.ip, r.client.clone())).collect::<Vec<_>>()
+                    ),
+                );
+                break;
+            }
+        }
+        cleanup(&path);
+        out
+    }
+}
+
+pub fn run_c18_locked(ctx: &Ctx) {
+    let cases = vec![LockedCase { holder: 0, before: 2 }, LockedCase { holder: 1, before: 2 }, LockedCase { holder: 0, before: 0 }, LockedCase { holder: 1, before: 0 }];
+    // the cases mostly wait for SQLite's busy timeout: side by side
+    let outs: Vec<(LockedCase, Outcome)> = std::thread::scope(|s| {
+        let hs: Vec<_> = cases.iter().map(|c| s.spawn(move || (c.clone(), exec(&C18Locked, c)))).collect();
+        hs.into_iter().map(|h| h.join().unwrap()).collect()
+    });
+    for (case, out) in outs {
+        ctx.record("file-held-by-another-connection", &case, &out);
+        if let Some(f) = out.fail {
+            ctx.violation("file-held-by-another-connection", &f, &case);
+            return;
+        }
+    }
+}
+
 pub fn run_c18_big_stores(ctx: &Ctx) {
     let sizes: Vec<u32> = if ctx.tier == Tier::Quick { vec![1, 999, 1000, 1001, 1100, 2500] } else { vec![1, 255, 256, 999, 1000, 1001, 1024, 1100, 2500, 4097, 10000, 65537] };
     let mut cases = vec![];
@@ -1598,6 +1734,10 @@ pub fn run_c18_func(ctx: &Ctx) {
         return;
     }
     run_c18_big_stores(ctx);
+    if !ctx.violations.lock().unwrap().is_empty() {
+        return;
+    }
+    run_c18_locked(ctx);
     if !ctx.violations.lock().unwrap().is_empty() {
         return;
     }
